@@ -38,7 +38,7 @@ def lf_is_const(a):
 def lf_str(a):
     s = str(a[0]) if a[0] or not a[1] else ""
     for (sym, k) in a[1]:
-        s += "%s%s%s" % ("+" if k > 0 else "-", "" if abs(k) == 1 else "%d*" % abs(k), "%s%d" % (sym[0], sym[1]))
+        s += "%s%s%s" % ("+" if k > 0 else "-", "" if abs(k) == 1 else "%d*" % abs(k), "%s%s" % (sym[0], sym[1]))
     return s or "0"
 
 
